@@ -1399,7 +1399,7 @@ def run(ctx):
     for name, f in [('dpl', lambda: stream_dpl(ctx, rr, 4000 if q else 60000)),
                     ('dp', lambda: stream_simpl(ctx, rr, 2000 if q else 12000, 'dp', ['DP'])),
                     ('tp', lambda: stream_simpl(ctx, rr, 2000 if q else 12000, 'tp', ['TP'])),
-                    ('dbl', lambda: stream_simpl(ctx, rr, 800 if q else 5000, 'dbl', ['DP', 'TP'], doubles=True)),
+                    ('dbl', lambda: stream_simpl(ctx, rr, 800 if q else 4000, 'dbl', ['DP', 'TP'], doubles=True)),
                     ('derived', lambda: stream_derived(ctx, rr, 200 if q else 1500)),
                     ('hull', lambda: stream_hull(ctx, rr, 1500 if q else 30000)),
                     ('cov', lambda: stream_cov(ctx, rr, 800 if q else 15000))]:
